@@ -838,8 +838,9 @@ class Process(StateMachine, persistence.Savable, metaclass=ProcessStateMachineMe
         """The process was paused."""
         self._pausing = None
 
-        # Create a future to represent the duration of the paused state
-        self._paused = persistence.SavableFuture()
+        # Create a future to represent the duration of the paused state (on the loop of the process: the request may
+        # come from code that runs outside of it)
+        self._paused = persistence.SavableFuture(loop=self._loop)
 
         # Save the current status and potentially overwrite it with the passed message
         self._pre_paused_status = self.status
